@@ -117,8 +117,12 @@ func verifC03Compaction(useStream bool, nLevel0 int, withLevel1 bool) {
 	table.VerifInstallWriter()
 	// value length of each key (equal in all files)
 	lens := map[uint32]int{}
+	nlen := 3
+	if nLevel0 > 2 || withLevel1 {
+		nlen = 2 // more inputs, fewer lengths: {1, 3}
+	}
 	for _, k := range verifC03Keys {
-		lens[k] = 1 + verifChoose("len", 3)
+		lens[k] = 1 + verifChoose("len", nlen)*(4-nlen)
 	}
 	var inputs []*verifC03Input
 	n := nLevel0
@@ -244,7 +248,9 @@ func verifC03Compaction(useStream bool, nLevel0 int, withLevel1 bool) {
 
 func verifC03SplitStream()  { verifC03Compaction(true, 2, false) }
 func verifC03SplitAdd()     { verifC03Compaction(false, 2, false) }
+// three and four inputs: the merged iterator's heap has to re-order after an input is exhausted
 func verifC03SplitStream3() { verifC03Compaction(true, 2, true) }
+func verifC03SplitAdd4()    { verifC03Compaction(false, 3, true) }
 
 // reachability twin: with a large maxFileSize everything lands in one file; claiming two files is wrong
 func verifC03SplitReach() {
